@@ -283,3 +283,84 @@ def rescale_feasible(cls, args, scales=(4, 16, 64)):
         if m2.solver.get_model_status() != "kInfeasible":
             incon = True
     return ("inconclusive", None) if incon else ("infeasible", None)
+
+
+# ------------------------------------------------------------------------------------------
+# deterministic cyclic families with the optimum known in closed form (C07 / C08 cyclic E2)
+def _chain(prefix, n):
+    return [f"{prefix}{i}" for i in range(n)]
+
+
+def cyclic_families():
+    """Yields dicts {name, G, k_list, weight_type, lae_opt, mpe_opt, width}.  All instances are feasible under the
+    repetition caps of the code as it is (every needed multiplicity <= the largest weight, every product <= w_max),
+    so none of them is an instance of the open cap findings.
+
+    (1) chain with a zero-flow SCC: one heavy edge (weight H) and, `hops` zero-weight edges away, a zero-weight
+        SCC (cycle of `size` nodes) that every covering walk has to enter twice.  Every source-to-sink walk uses the
+        heavy edge and all chain edges, so for every k:  kLAE optimum = H (weights 0),
+        kMPE optimum = H/2 (ceil for integers):  |H - w| <= rho on the heavy edge, w <= rho on a zero edge.
+    (2) the same shape with a perfect fractional decomposition A*(a b x) + u*(a b .. (cycle)^(r+1) .. f): optimum 0 for
+        both models with k = 2 = width; the cycle entry edge is needed r+1 times.
+    (3) s -> a -> b -> t with back edge b -> a (or a 3-cycle), weights (u, L*u, (L-1)*u, u): one walk of weight u looping
+        L times explains everything; optimum 0 for every k >= 1.  L*u runs over powers of two and their neighbours."""
+    import networkx as nx
+    # (1)
+    idx = 0
+    for hops in (1, 2, 3, 4):
+        for size in (2, 3):
+            for H in (4, 6, 2):
+                for upstream in (True, False):
+                    for wt in (int, float):
+                        idx += 1
+                        if H == 2 and (hops + size + upstream + (wt == int)) % 2:      # thin out
+                            continue
+                        mid = _chain("c", hops)                      # nodes between the heavy edge and the SCC
+                        scc = _chain("d", size)
+                        nodes = ["a", "b"] + mid + scc + ["f"]
+                        es = [("a", "b")] + list(zip(["b"] + mid, mid + [scc[0]]))
+                        cyc = list(zip(scc, scc[1:] + scc[:1]))
+                        es += cyc + [(scc[-1] if size == 2 else scc[1], "f")]
+                        G = nx.DiGraph()
+                        for (u, v) in es:
+                            f = H if (u, v) == ("a", "b") else 0
+                            if upstream:
+                                G.add_edge(u, v, flow=wt(f))
+                            else:                                     # reverse everything: heavy edge downstream
+                                G.add_edge(v, u, flow=wt(f))
+                        yield {"name": f"zero-scc hops={hops} size={size} H={H} {'up' if upstream else 'down'} {wt.__name__}",
+                               "G": G, "k_list": [1, 2] if idx % 2 else [None, 1], "weight_type": wt, "width": 1,
+                               "lae_opt": F(H), "mpe_opt": F(-(-H // 2)) if wt == int else F(H, 2)}
+    # (2)
+    for hops in (1, 2, 3):
+        for size in (2, 3):
+            for (A, u, r) in ((F(11, 2), F(1, 2), 2), (F(3), F(1), 1), (F(7, 2), F(1, 2), 1)):
+                mid = _chain("c", hops); scc = _chain("d", size)
+                G = nx.DiGraph()
+                G.add_edge("a", "b", flow=float(A + u)); G.add_edge("b", "x", flow=float(A))
+                for (p, q) in zip(["b"] + mid, mid + [scc[0]]):
+                    G.add_edge(p, q, flow=float(u))
+                cyc = list(zip(scc, scc[1:] + scc[:1]))
+                exit_node = scc[-1] if size == 2 else scc[1]
+                # walk: enter at d0, go round r times, leave at exit_node: edges up to exit_node are used r+1 times
+                j = scc.index(exit_node)
+                for t, (p, q) in enumerate(cyc):
+                    G.add_edge(p, q, flow=float(u * ((r + 1) if t < j else r)))
+                G.add_edge(exit_node, "f", flow=float(u))
+                yield {"name": f"fractional hops={hops} size={size} A={A} u={u} r={r}", "G": G, "k_list": [2], "weight_type": float,
+                       "width": 2, "lae_opt": F(0), "mpe_opt": F(0)}
+    # (3)
+    for L in (2, 3, 4, 5, 8):
+        for u in (1, 2):
+            for size in (2, 3):
+                for wt in (int, float):
+                    if u == 2 and (L in (3, 5) or wt == float):
+                        continue
+                    scc = ["a", "b"] if size == 2 else ["a", "b", "c"]
+                    G = nx.DiGraph()
+                    G.add_edge("s", "a", flow=wt(u)); G.add_edge("b", "t", flow=wt(u))
+                    cyc = list(zip(scc, scc[1:] + scc[:1]))
+                    for t, (p, q) in enumerate(cyc):
+                        G.add_edge(p, q, flow=wt(u * (L if t == 0 else L - 1)))
+                    yield {"name": f"loop L={L} u={u} size={size} {wt.__name__}", "G": G, "k_list": [1] if L > 2 else [1, 2],
+                           "weight_type": wt, "width": 1, "lae_opt": F(0), "mpe_opt": F(0)}
